@@ -181,7 +181,7 @@ Definition implements (e : err) (i : iface_t) : bool :=
   | IfTimeout =>
     match e with
     | Leaf _ LDeadline | Leaf _ (LErrno _) | Leaf _ (LOpaqueErrno _ _) => true
-    | Wrap _ (WPathError _ _) _ | Wrap _ (WSyscallError _) _ => true
+    | Wrap _ (WPathError _ _) _ | Wrap _ (WSyscallError _) _ | Wrap _ (WOpError _ _ _ _) _ => true
     | _ => false
     end
   | IfUnwrapMulti =>
